@@ -72,6 +72,7 @@ R = {
     "da_layout": named("da_layout", da.da_modules, ["graph_layout", "graph_layout_utils", "linalg_functions"], "DA.layout",
                        only={"graph_layout": ["graph_layout:vespr_layout"]}),
     "key_layout": tiered(keys.key_layout),
+    "tt_order_defaults": tiered(sampler.tt_order_defaults),
     "ring_marker_text": tiered(ring.ring_marker_text),
     "tt_layer_format": tiered(extra.tt_layer_format),
     "prov_sampler_setup": tiered(sampler.prov_sampler_setup),
@@ -252,12 +253,12 @@ prop("C16", ["prov_sampler_setup", "da_self_attrs_sampler", "da_sampler", "tt_co
      "atom under its own descriptors, the fragment index maps a descriptor to (fragment, atom) carrying it; finalisation order",
      "connectedness / tree shape follow by induction that is not mechanised; valence completeness as C09",
      floors={"PROV.sampler-setup": 7, "DA.self-attrs": 7, "DA.sampler": 9, "TT.complement": 1, "PROV.growth-edge": 6, "PAIR.sampler-consume": 2, "PROV.open-bonds": 6, "OWN.templates-sampler": 5, "ORD.sample-finalise": 5})
-prop("C17", ["own_mutable_defaults_sampler", "prov_sampler_setup", "da_self_attrs_sampler", "ord_complete_loops_mass", "da_sampler", "prov_stop_rule", "prov_weights", "tt_terminal_filter", "det_sampler", "ord_compute_mass", "det_shared_state_sampler"],
+prop("C17", ["tt_order_defaults", "own_mutable_defaults_sampler", "prov_sampler_setup", "da_self_attrs_sampler", "ord_complete_loops_mass", "da_sampler", "prov_stop_rule", "prov_weights", "tt_terminal_filter", "det_sampler", "ord_compute_mass", "det_shared_state_sampler"],
      "stop rule `sum < target` strict, sum starts at 0 and grows by the added fragment's mass on every iteration; weights are probabilities.get(b, 0) over the "
      "same sequence, unweighted draw only without table; terminal filter truth table; every draw is random.* on ordered populations, seeded on every path "
      "from the seed parameter before any draw; mass = sum over the hydrogen-completed copy",
      "statistical properties; floating point normalisation",
-     floors={"OWN.mutable-defaults": 2, "PROV.sampler-setup": 7, "DA.self-attrs": 7, "ORD.complete-loops": 1, "DA.sampler": 9, "DET.shared-state": 8, "PROV.stop-rule": 4, "PROV.weights": 3, "TT.terminal-filter": 2, "DET.sampler": 6, "ORD.compute-mass": 3})
+     floors={"TT.order-defaults": 2, "OWN.mutable-defaults": 2, "PROV.sampler-setup": 7, "DA.self-attrs": 7, "ORD.complete-loops": 1, "DA.sampler": 9, "DET.shared-state": 8, "PROV.stop-rule": 4, "PROV.weights": 3, "TT.terminal-filter": 2, "DET.sampler": 6, "ORD.compute-mass": 3})
 prop("C18", ["ord_complete_loops_rdkit", "da_rdkit", "da_globals_rdkit", "key_rdkit", "norm_bead", "tab_bond_types", "prov_rdkit_attrs"],
      "no unresolved global name in rdkit.py / coordinates.py; node keys, RDKit atom indices and counters are never mixed without a map; bead position = "
      "weighted sum over the bead's own atoms / sum of those weights; bond type table; element, charge, hydrogen count and bond order are carried by both conversions",
